@@ -63,10 +63,19 @@ def gen_cases(tier, seed):
     for k, cse in enumerate(cases):
         if k % 3 == 0:
             cse["history"] = int(rng.integers(1, 1 << 31))
+    # parameter regions beyond the regular table: strongly concentrated directions (von Mises kappa 60 .. 5000)
+    vrng = np.random.default_rng([seed, 1, 33])
+    for k in range(4 if tier == "quick" else 40):
+        kap = float([80.0, 600.0, 2000.0, 5000.0][k % 4] * vrng.uniform(0.9, 1.2))
+        if k % 2 == 0:
+            spec = {"dims": [{"fam": "vonmises", "params": {"kappa": kap, "mu": float(vrng.uniform(-1, 1))}}, {"fam": "normal", "cond": 0, "params": {"mu": {"shape": "linear2", "coef": [3.0, 0.4]}, "sigma": 1.2}}]}
+        else:
+            spec = {"dims": [{"fam": "weibull", "params": {"alpha": 2.0, "beta": 1.6, "gamma": 0.0}}, {"fam": "vonmises", "cond": 0, "params": {"kappa": {"shape": "linear2", "coef": [kap, kap / 10]}, "mu": float(vrng.uniform(-1, 1))}}]}
+        cases.append({"spec": spec, "alpha": float(10 ** vrng.uniform(-6, -1)), "n_points": 24, "method": "iform" if k % 4 < 2 else "isorm", "own_only": True})
     # units as an input class (the same law with variables in micro- or kilo-units)
     urng = np.random.default_rng([seed, 1, 77])
     for k, cse in enumerate(cases):
-        if k % 4 == 1:
+        if k % 4 == 1 and not cse.get("own_only"):
             cse["units"] = [float(urng.choice([1e-6, 1e-3, 1e-2, 1e2, 1e3, 1e5])) for _ in cse["spec"]["dims"]]
     # the shipped test model and the OMAE V-Hs structure as fixed members
     for sp_ in (S.spec_seastate(), S.spec_omae_vhs()):
@@ -144,7 +153,10 @@ def _post(method):
         model = con.model
         if type(model).__name__ != "GlobalHierarchicalModel":
             return
-        spec = c.case.get("spec")
+        # (own_only: a parameter region in which the independent reference is not claimed to be exact - strongly
+        #  concentrated von Mises, where scipy itself switches to an approximation - is judged statement-literally,
+        #  through the model's own cdfs only)
+        spec = None if c.case.get("own_only") else c.case.get("spec")
         alpha, n_points = con.alpha, con.n_points
         X = np.asarray(con.coordinates, float)
         d = model.n_dim
